@@ -269,6 +269,12 @@ Mid3Set(z) == LET lv == ElemLeaves({"a", "b"}, {<<1, 1>>, <<0, 1>>, <<0, Inf>>})
                   inner == GroupsOver(ElemLeaves({"a", "b"}, {<<1, 1>>, <<0, 1>>}), {"s", "c"}, {<<1, 1>>, <<0, 1>>})
               IN {<<"s", <<x, g, y>>, o[1], o[2]>> : x \in lv, g \in inner, y \in lv, o \in {<<1, 1>>, <<1, Inf>>}}
 
+(* a PROHIBITED group (maxOccurs = 0) as first particle: no component at all *)
+ZeroSet(z) == LET g0 == {<<k, ks, 0, 0>> : k \in {"s", "c"},
+                          ks \in Kids12(ElemLeaves({"b", "c"}, {<<1, 1>>, <<0, 1>>}))}
+                  rest == Kids12(ElemLeaves({"a", "b"}, {<<1, 1>>, <<0, 1>>, <<0, Inf>>}))
+              IN {<<k, <<g>> \o r, o[1], o[2]>> : k \in {"s", "c"}, g \in g0, r \in rest, o \in {<<1, 1>>, <<0, Inf>>}}
+
 (* typed leaves for Element Declarations Consistent *)
 TypedSet(z) == GroupsOver({<<"e", n, o[1], o[2], t>> : n \in {"a", "b"}, o \in {<<1, 1>>, <<0, 1>>},
                                                        t \in {"s", "i"}},
@@ -285,6 +291,7 @@ Family(name) == CASE name = "Depth1"  -> Depth1Set(0)
                   [] name = "LeafVar" -> LeafVarSet(0)
                   [] name = "LeafVarF" -> LeafVarFSet(0)
                   [] name = "Mid3"    -> Mid3Set(0)
+                  [] name = "Zero"    -> ZeroSet(0)
                   [] name = "Typed"   -> TypedSet(0)
                   [] name = "OCQ"     ->      \* bases of the open-content scope
                        GroupsOver(ElemLeaves({"a", "b"}, {<<1, 1>>, <<0, 1>>, <<0, Inf>>}), {"s", "c"},
